@@ -4,11 +4,13 @@
 WT=$1
 cd "$WT" || exit 2
 export CARGO_TARGET_DIR=$WT/target CARGO_NET_OFFLINE=true
+FEAT=""
+[ -f DEMO_FEATURES ] && FEAT="--features $(head -1 DEMO_FEATURES | tr -d '\n')"
 git checkout -q -- src 2>/dev/null
 git apply mutation.diff || { echo '{"error":"patch does not apply"}'; exit 1; }
 suite1=$(timeout 900 cargo test --offline --lib 2>&1 | grep -E "^test result" | head -1)
 suite2=$(timeout 900 cargo test --offline --lib 2>&1 | grep -E "^test result" | head -1)
-demo_with=$(timeout 900 cargo test --offline --test demo 2>&1 | grep -E "^test result" | head -1)
+demo_with=$(timeout 900 cargo test --offline $FEAT --test demo 2>&1 | grep -E "^test result|error(\[|:)" | head -1)
 git checkout -q -- src
-demo_without=$(timeout 900 cargo test --offline --test demo 2>&1 | grep -E "^test result" | head -1)
-printf '{"suite1":"%s","suite2":"%s","demo_with":"%s","demo_without":"%s"}\n' "$suite1" "$suite2" "$demo_with" "$demo_without"
+demo_without=$(timeout 900 cargo test --offline $FEAT --test demo 2>&1 | grep -E "^test result|error(\[|:)" | head -1)
+printf '{"suite1":"%s","suite2":"%s","demo_with":"%s","demo_without":"%s","features":"%s"}\n' "$suite1" "$suite2" "$demo_with" "$demo_without" "$FEAT"
